@@ -176,6 +176,21 @@ def run_case(ctx, d):
                     ctx.fail('wrong-kind-block-accepted', {'block': LABEL[src], 'loaded_as': dst, 'result_bytes': len(bytes(got)) if got is not None else None})
                 except Exception as e:
                     ctx.outcome('wrong_kind_rejected:' + type(e).__name__)
+        # correctly formed payloads under the wrong BEGIN/END label (made with the reference armorer)
+        for src, o in objs.items():
+            for label in ('PUBLIC KEY BLOCK', 'PRIVATE KEY BLOCK', 'MESSAGE', 'SIGNATURE', 'ARMORED FILE'):
+                if label == LABEL[src] or (src == 'pub' and 'KEY' in label):
+                    continue
+                ctx.count('kind_confusion')
+                ctx.count('evaluations')
+                text = armor.armor(label, bytes(o))
+                try:
+                    with warnings.catch_warnings():
+                        warnings.simplefilter('ignore')
+                        got = _load(_cls(src), text)
+                    ctx.fail('mislabelled-block-accepted', {'payload': src, 'label': label})
+                except Exception as e:
+                    ctx.outcome('wrong_kind_rejected:' + type(e).__name__)
         ctx.nontrivial(d)
     elif t == 'corrupt':
         _corrupt(ctx, d)
